@@ -3,7 +3,7 @@
 # run the quick checks of the given properties (default: all 20; they must all stay silent), undo
 # the change.  Prints one line per property that alarms and a summary line.
 set -u
-d=$1; shift
+d=$(readlink -f "$1"); shift
 name=$(basename "$(dirname "$d")")/$(basename "$d")
 props=${*:-C01 C02 C03 C04 C05 C06 C07 C08 C09 C10 C11 C12 C13 C14 C15 C16 C17 C18 C19 C20}
 [ -z "$(git -C /repo status --porcelain --untracked-files=no)" ] || { echo "repo not clean"; exit 2; }
